@@ -332,6 +332,9 @@ def cases(profile="general"):
     crr = profile.endswith("_crr")
     if crr:
         profile = profile[: -len("_crr")]
+    pausefault = profile.endswith("_pausefault")
+    if pausefault:
+        profile = profile[: -len("_pausefault")]
     runprobe = profile.endswith("_runprobe")
     if runprobe:
         profile = profile[: -len("_runprobe")]
@@ -398,6 +401,14 @@ def cases(profile="general"):
             case["faults"] = [f]
         if draw(st.integers(0, 3)) == 0:
             case["re"] = {"record_interruptions": True}
+        if pausefault:
+            # Pausable detectors whose pause() / resume() hook can fail: reaches the engine's error exits from 'pausing'
+            for d in ("d1", "d3"):
+                case["devices"]["dets"][d]["pausable"] = True
+            if draw(st.integers(0, 3)) > 0:
+                case["faults"] = [
+                    {"dev": draw(st.sampled_from(["d1", "d3"])), "op": draw(st.sampled_from(["pause", "pause", "resume"])), "n": draw(st.integers(1, 2)), "kind": "raise"}
+                ]
         if runprobe:
             case["probe"] = "run"
         if crr and draw(st.booleans()):
